@@ -87,6 +87,11 @@ def _contains(container, x):
         for y in container:
             acc = or_(acc, x == y)
         return acc
+    if getattr(type(x), '__hv_proxy__', False) and isinstance(container, str) and hasattr(x, 'chars'):
+        # single-character symbolic string against a constant alphabet
+        if x.n.is_const() and x.n.val == 1:
+            return wrap(tm.or_(*[tm.eq(x.chars[0], tm.I(ord(ch))) for ch in container]), bool)
+        raise Unsupported('substring test of a symbolic string')
     if isinstance(container, SymStr) or (isinstance(x, SymStr) and isinstance(container, str)):
         raise Unsupported('substring test on opaque string')
     return x in container
@@ -279,6 +284,32 @@ def range_(*a):
     return range(*a)
 
 
+def math_isfinite(x):
+    from . import bstr
+    return bstr.isfinite(x)
+
+
+def math_isnan(x):
+    from . import bstr
+    return bstr.isnan(x)
+
+
+def math_isinf(x):
+    from . import bstr
+    f, n = bstr.isfinite(x), bstr.isnan(x)
+    return not_(or_(f, n))
+
+
+def math_ceil(x):
+    return ceil_(x)
+
+
+def math_floor(x):
+    if isinstance(x, Sym):
+        return wrap(tm.floor(tm.to_real(x.term)), int)
+    return math.floor(x)
+
+
 def ceil_(x):
     if isinstance(x, Sym):
         if x.pytype is float:
@@ -391,4 +422,7 @@ def getitem(a, b):
         raise Unsupported('dict lookup by opaque string')
     if isinstance(b, SymStr) and isinstance(a, type) and issubclass(a, _enum.Enum):
         raise Unsupported('Enum[opaque string]')
+    if hasattr(b, 'chars') and getattr(type(b), '__hv_proxy__', False) and isinstance(a, type) and issubclass(a, _enum.Enum):
+        from . import bstr
+        return bstr.enum_lookup(a, b)
     return a[b]
